@@ -98,7 +98,9 @@ func h06c(n int) {
 	p := vxChoice(n-1) + 1
 	isL := func(b byte) bool { return ((b | 0x20) - 'a') < 26 }
 	vxAssume(vxAnd(isL(x[p-1]), isL(x[p])))
-	vxSameDoc("hyphen-split", vxTokenizeBytes(x), vxTokenizeBytes(vxInsert(x, p, "-\n")), false)
+	// the continuation line may be indented by any horizontal whitespace
+	indent := []string{"", " ", "\t", "  \t", "\u00a0", "\f", "\r", "\v \u2003"}[vxChoice(8)]
+	vxSameDoc("hyphen-split", vxTokenizeBytes(x), vxTokenizeBytes(vxInsert(x, p, "-\n"+indent)), false)
 	vxCover("end")
 }
 
